@@ -1,8 +1,18 @@
 #!/bin/bash
 # usage: seedtest.sh <patch.diff> <Cxx> [more Cxx...]  -- applies a seeded change to /repo, runs the checks, undoes it.
+# The evidence files of the checks are saved before and restored afterwards: what is committed under evidence/ must
+# always come from a run on the unchanged tree (the replay files of the seeded run stay under evidence/replays/).
 p=$1; shift
+mkdir -p /tmp/seed_evidence_save
+for c in "$@"; do cp /verif/evidence/$c.json /tmp/seed_evidence_save/$c.json 2>/dev/null; done
 cd /repo && git apply "$p" || { echo "patch does not apply"; exit 2; }
 for c in "$@"; do
   ( cd /verif && timeout 3000 ./check $c --tier quick; echo "exit=$?" ) 2>&1 | tail -5
 done
 git -C /repo checkout -- . ; git -C /repo status --short | head
+for c in "$@"; do cp /tmp/seed_evidence_save/$c.json /verif/evidence/$c.json 2>/dev/null; done
+# the generated Coq inputs are regenerated from the restored source
+cd /verif && python3 tools/gen_consts.py coq/gen/Consts.v > /dev/null 2>&1; python3 tools/gen_synccell.py coq/gen/SyncCellProg.v > /dev/null 2>&1
+python3 tools/gen_pool.py coq/gen/PoolProg.v > /dev/null 2>&1; python3 tools/gen_chan.py coq/gen/ChanProg.v > /dev/null 2>&1
+python3 tools/gen_strun.py coq/gen/StRunProg.v > /dev/null 2>&1; python3 tools/gen_slot.py coq/gen/SlotProg.v > /dev/null 2>&1
+exit 0
